@@ -104,6 +104,38 @@ def _depth(ctx: Ctx, c: Collector) -> None:
         else:
             c.ok("interval", qn, "depth = 1 + number of enclosing groups", "counted along the parent chain, starting from 1", fi.loc)
         return
+    # counted over the parent chain: `sum(1 for _ in chain(self))` / `len(list(chain(self)))`, the chain being a walker that starts
+    # at the group itself and climbs `.parent` while there is one (a generator helper read in place)
+    if len(s.returns) == 1 and not s.returns[0].guards:
+        v = T.strip(s.returns[0].term)
+        bag = None
+        unit = None
+        offset = 0
+        if v[0] == "op" and v[1] in ("+", "-") and len(v) == 4 and T.strip(v[3])[0] == "const" and isinstance(T.strip(v[3])[1], int):
+            offset = T.strip(v[3])[1] if v[1] == "+" else -T.strip(v[3])[1]
+            v = T.strip(v[2])
+        if v[0] == "agg" and v[1] == "sum" and T.strip(v[2])[0] == "bag":
+            bag = T.strip(v[2])
+        elif v[0] == "call" and v[1] == T.glob("len") and len(v[2]) == 1 and T.strip(v[2][0])[0] == "bag":
+            bag, unit = T.strip(v[2][0]), 1
+        if bag is not None and len(bag[1]) == 1 and len(bag[1][0][3]) == 1 and bag[1][0][3][0][1] == ("while",):
+            el = bag[1][0]
+            cond = T.strip(el[3][0][2])
+            w = cond[2] if cond[0] == "cmp" and cond[1] == "isnot" and cond[3] == T.NONE else cond
+            inits = [b for b in s.of_kind("bind") if b.term[1] == w and not b.iters]
+            steps = [b for b in s.of_kind("bind") if b.term[1] == w and b.iters == el[3]]
+            val = T.strip(el[1])
+            if unit is None and val[0] == "const" and isinstance(val[1], int):
+                unit = val[1]
+            if w[0] == "var" and len(inits) == 1 and T.strip(inits[0].term[2]) == me and len(steps) == 1 and steps[0].term[2] == ("attr", w, "parent") \
+                    and all(T.guard_term(g) in (w, ("cmp", "isnot", w, T.NONE)) for g in el[2]) and unit is not None:
+                if offset != 0:
+                    c.bad("interval", qn, "depth = 1 + number of enclosing groups", f"a group without parent has depth {unit + offset} instead of 1 (its simulators' time has one tier)", fi.loc)
+                elif unit != 1:
+                    c.bad("interval", qn, "depth = 1 + number of enclosing groups", f"every group of the chain counts {unit} instead of 1", fi.loc)
+                else:
+                    c.ok("interval", qn, "depth = 1 + number of enclosing groups", "the number of groups in the parent chain, the group itself included", fi.loc)
+                return
     # a value that is computed once when the group is made (`self._depth = ...` in __init__ / __post_init__, also through
     # object.__setattr__ for a frozen class) and handed out by the property is that value; the stored field of the parent is
     # the parent's depth
@@ -566,9 +598,40 @@ def _interval(ctx: Ctx, c: Collector) -> None:
         return
     r = rets[0]
     kw = dict(r.term[3])
-    if kw.get("pre_length") != pre:
+    descent = ("idx", gp, T.const(1))
+
+    def lin(t):
+        """linear form over (src depth, ascent, descent, 1), modulo depth(common) = depth(src) - ascent and depth(dest) = depth(common) + descent"""
+        t = T.strip(t) if t is not None else None
+        if t is None:
+            return None
+        if t == pre:
+            return {"s": 1}
+        if t == ascent:
+            return {"a": 1}
+        if t == descent:
+            return {"d": 1}
+        if t == ("attr", common, "depth"):
+            return {"s": 1, "a": -1}
+        if t == ("attr", dg, "depth"):
+            return {"s": 1, "a": -1, "d": 1}
+        if t[0] == "const" and isinstance(t[1], int) and not isinstance(t[1], bool):
+            return {"1": t[1]}
+        if t[0] == "op" and t[1] in ("+", "-") and len(t) == 4:
+            a, b = lin(t[2]), lin(t[3])
+            if a is None or b is None:
+                return None
+            out = dict(a)
+            for k, v in b.items():
+                out[k] = out.get(k, 0) + (v if t[1] == "+" else -v)
+            return {k: v for k, v in out.items() if v}
+        return None
+
+    def same(x, want) -> bool:
+        return x == want or (lin(x) is not None and lin(x) == lin(want))
+    if not same(kw.get("pre_length"), pre):
         pr.append(f"pre_length is {T.show(kw.get('pre_length'))} instead of the source group's depth")
-    if kw.get("cutoff") != cut:
+    if not same(kw.get("cutoff"), cut):
         pr.append(f"cutoff is {T.show(kw.get('cutoff'))} instead of src depth - ascent")
     tiers = r.term[2][0][1] if r.term[2] and r.term[2][0][0] == "star" else None
     sparse = None
@@ -590,11 +653,15 @@ def _interval(ctx: Ctx, c: Collector) -> None:
                 pr.append("the table of non-zero tiers is modified in other ways than by placing a value")
         else:
             b = [e for e in s.of_kind("bind") if e.term[1] == tiers]
-            if not b or b[0].term[2] != ("op", "*", ("bag", (("elem", T.const(0), (), ()),), "list"), ("attr", dg, "depth")):
+            zl = ("bag", (("elem", T.const(0), (), ()),), "list")
+            bv = T.strip(b[0].term[2]) if b else None
+            if not b or not (bv[0] == "op" and bv[1] == "*" and len(bv) == 4 and ((bv[2] == zl and same(bv[3], ("attr", dg, "depth"))) or (bv[3] == zl and same(bv[2], ("attr", dg, "depth"))))):
                 pr.append("the interval does not have one zero tier per level of the destination group")
         sts = {e.term[1][2]: e for e in s.of_kind("store") if e.term[1][0] == "idx" and e.term[1][1] == tiers}
         e0 = sts.get(T.const(0))
         ew = sts.get(("op", "-", cut, T.const(1)))
+        if ew is None:
+            ew = next((e for k, e in sts.items() if k != T.const(0) and same(k, ("op", "-", cut, T.const(1)))), None)
         if e0 is None or e0.term[2] != ts:
             pr.append("time_shifted is not placed in tier 0")
         if ew is None or ew.term[2] != wk:
